@@ -497,6 +497,7 @@ static void graphThrowThenReuse(dispenso::ThreadPool& pool, uint64_t seed) {
         sink.dependsOn(*c);
       sink.dependsOn(d);
       TS ts(pool);
+      setAllNodesIncomplete(g); // (a freshly built graph has all counters 0: the contract is setAll / propagate before evaluating)
       try {
         ex(ts, g);
       } catch (const Boom&) {
@@ -508,13 +509,55 @@ static void graphThrowThenReuse(dispenso::ThreadPool& pool, uint64_t seed) {
     } // the graph and its payload copies are gone
     quiesce();
     {
+      // same shape and creation order as the aborted graph (the node allocator hands out the same addresses again):
+      // anything the executor kept from the aborted evaluation now aliases these nodes
       dispenso::Graph g2;
       LT q(9);
-      auto& n0 = g2.addNode([q]() { (void)q.use(); });
-      auto& n1 = g2.addNode([q]() { (void)q.use(); });
-      n1.dependsOn(n0);
+      int chains = 2 + (int)((seed + (uint64_t)round) % 6);
+      std::vector<std::atomic<int>> runs((size_t)(2 * chains + 3));
+      for (auto& r : runs)
+        r.store(0);
+      std::atomic<int> early{0};
+      std::vector<dispenso::Node*> cs;
+      for (int i = 0; i < chains; ++i) {
+        auto& a = g2.addNode([q, &runs, i]() { (void)q.use(); runs[(size_t)(2 * i)].fetch_add(1); });
+        auto& c = g2.addNode([q, &runs, &early, i]() {
+          (void)q.use();
+          if (runs[(size_t)(2 * i)].load() != 1)
+            early.fetch_add(1);
+          runs[(size_t)(2 * i + 1)].fetch_add(1);
+        });
+        c.dependsOn(a);
+        cs.push_back(&c);
+      }
+      auto& b = g2.addNode([q, &runs, chains]() { (void)q.use(); runs[(size_t)(2 * chains)].fetch_add(1); });
+      auto& d = g2.addNode([q, &runs, chains]() { (void)q.use(); runs[(size_t)(2 * chains + 1)].fetch_add(1); });
+      d.dependsOn(b);
+      auto& sink = g2.addNode([q, &runs, &early, chains]() {
+        (void)q.use();
+        for (int k = 0; k < 2 * chains + 2; ++k)
+          if (runs[(size_t)k].load() != 1)
+            early.fetch_add(1);
+        runs[(size_t)(2 * chains + 2)].fetch_add(1);
+      });
+      for (auto* c : cs)
+        sink.dependsOn(*c);
+      sink.dependsOn(d);
       TS ts(pool);
+      setAllNodesIncomplete(g2);
       ex(ts, g2);
+      int wrong = early.load();
+      for (auto& r : runs)
+        if (r.load() != 1)
+          ++wrong;
+      // every node of the new graph ran exactly once, after its predecessors
+      if (wrong && getenv("VERIF_DEBUG")) {
+        fprintf(stderr, "graph_throw: early=%d runs:", early.load());
+        for (auto& r : runs)
+          fprintf(stderr, " %d", r.load());
+        fprintf(stderr, "\n");
+      }
+      ev("Expect", 30, wrong);
     }
     quiesce();
   }
